@@ -21,6 +21,7 @@ for cfg in ("E", "D"):
     for p, fn in f.fns.items():
         if fn.kind == "Closure":
             continue
-        out.setdefault(fn.crate, set()).add(re.sub(r"#\d+$", "", p))
-json.dump({k: sorted(v) for k, v in sorted(out.items())}, open(os.path.join(HERE, "rules", "known_fns.json"), "w"), indent=0)
+        sig = "(%s) -> %s" % (", ".join(fn.j.get("inputs", [])), fn.j.get("output", ""))
+        out.setdefault(fn.crate, {})[re.sub(r"#\d+$", "", p)] = sig
+json.dump({k: dict(sorted(v.items())) for k, v in sorted(out.items())}, open(os.path.join(HERE, "rules", "known_fns.json"), "w"), indent=0)
 print({k: len(v) for k, v in out.items()})
